@@ -51,16 +51,20 @@ DocChecks(r) ==
                      [] sem = "lax"     -> laxOk
                      [] sem = "pstrict" -> pStrict
                      [] sem = "plax"    -> pLax
+                     [] sem = "plossy"  -> pLax /\ ~pl.inf
+                     [] sem = "praw"    -> ps.root # NoVal
                      [] sem = "kind:str"  -> strictOk /\ bs.root.t = "str"
                      [] sem = "kind:num"  -> strictOk /\ bs.root.t = "num"
                      [] sem = "kind:bool" -> strictOk /\ bs.root.t = "bool"
                      [] sem = "kind:null" -> strictOk /\ bs.root.t = "null"
-      SpecVal(sem) == IF sem \in {"pstrict", "plax"} THEN ps.root ELSE bs.root
+      SpecVal(sem) == CASE sem \in {"pstrict", "plax", "praw"} -> ps.root
+                        [] sem = "plossy" -> pl.root
+                        [] OTHER -> bs.root
       amb == PrefixAmbiguous(r.b, TRUE)
       Bad(ep) == LET x == r.res[ep] IN
                  \/ ("panic" \in Checks /\ x.panic)
-                 \/ ("verdict" \in Checks /\ ~x.panic /\ x.ok # Want(x.sem) /\ ~(amb /\ x.sem \in {"pstrict", "plax"}))
-                 \/ ("value" \in Checks /\ x.ok /\ Has(x, "v") /\ Has(x.v, "t") /\ x.v.t # "nodump"
+                 \/ ("verdict" \in Checks /\ ~x.panic /\ x.ok # Want(x.sem) /\ ~(amb /\ x.sem \in {"pstrict", "plax", "plossy", "praw"}))
+                 \/ ("value" \in Checks /\ x.ok /\ Want(x.sem) /\ Has(x, "v") /\ Has(x.v, "t") /\ x.v.t # "nodump"
                        /\ ~ValMatches(SpecVal(x.sem), x.v))
                  \/ ("errpos" \in Checks /\ ~x.ok /\ ~x.panic /\ Has(x, "err") /\ ~ErrOk(Full(r, x), x.err))
   IN {ep \in DOMAIN r.res : Bad(ep)}
